@@ -209,6 +209,27 @@ def finite_reference(schema):
             for v in s:
                 collect(v)
     collect(schema)
+    # objects (finite object schemas: keyword intersections over properties / patternProperties with one closed branch): every subset of
+    # the declared keys in every order — soundness only needs a superset of the orders the engine may emit
+    okeys = []
+
+    def keys_of(s):
+        if isinstance(s, dict):
+            for k in (s.get("properties") or {}):
+                if k not in okeys:
+                    okeys.append(k)
+            for v in s.values():
+                keys_of(v)
+        elif isinstance(s, list):
+            for v in s:
+                keys_of(v)
+    keys_of(schema)
+    if okeys and len(okeys) <= 3:
+        cands.append({})
+        for n in range(1, len(okeys) + 1):
+            for ks in itertools.permutations(okeys, n):
+                for vs in itertools.product(pool, repeat=n):
+                    cands.append(dict(zip(ks, vs)))
     val = jsonschema.Draft202012Validator(schema)
     rb = RefCFG(schema)
     seen = set()
@@ -225,7 +246,7 @@ def finite_reference(schema):
 def reference(schema):
     """returns (rules, start, atoms)"""
     if schema.get("x-verif-finite"):
-        return finite_reference({k: v for k, v in schema.items() if k != "x-verif-finite"})
+        return finite_reference({k: v for k, v in schema.items() if not k.startswith("x-verif-")})
     rb = RefCFG(schema)
     defs = schema.get("$defs") or {}
     body = {k: v for k, v in schema.items() if k != "$defs"}
@@ -356,8 +377,42 @@ def gen_finite(rng):
     return s
 
 
+def gen_finite_obj(rng):
+    """finite object schemas built by keyword intersection: patternProperties in one allOf branch, the matching names declared in another
+    (closed) branch, in either order; or both in one object. One branch is closed and declares every admissible key, so the instance set is
+    finite and no key can repeat. Soundness (C06) only: allOf / patternProperties are outside C07's subset."""
+    leafs = [{"enum": [1, "x"]}, {"enum": ["x", "a"]}, {"type": "boolean"}, {"type": "null"}, {"const": 7}, {"enum": [True, None, "a"]}, {"enum": [1, 7]}]
+    keys = rng.sample(["x-id", "a", "x-no"], rng.randint(1, 3))
+    props = {k: rng.choice(leafs) for k in keys}
+    closed = {"type": "object", "properties": props, "additionalProperties": False}
+    req = [k for k in keys if rng.random() < 0.4]
+    if req:
+        closed["required"] = req
+    pat = rng.choice(["^x-", "^x-id$", "^(x-id|a)$", "^a$", "id$", "^x-n", "."])
+    pp = {"type": "object", "patternProperties": {pat: rng.choice(leafs)}}
+    if rng.random() < 0.3:
+        pp["patternProperties"][rng.choice(["o$", "^a", "-"])] = rng.choice(leafs)
+    form = rng.randint(0, 3)
+    if form == 0:
+        s = {"allOf": [pp, closed]}
+    elif form == 1:
+        s = {"allOf": [closed, pp]}
+    elif form == 2:
+        s = {"type": "object", "allOf": [pp, closed]}
+    else:
+        # one object: only patterns that are used up by the declared names (a pattern key that is not declared could repeat)
+        s = dict(closed)
+        s["patternProperties"] = {"^(%s)$" % "|".join(keys): rng.choice(leafs)}
+    s["x-verif-finite"] = True
+    s["x-verif-c06-only"] = True
+    return s
+
+
 def gen_case(rng):
-    if rng.random() < 0.18:
+    r0 = rng.random()
+    if r0 < 0.08:
+        return gen_finite_obj(rng)
+    if r0 < 0.24:
         return gen_finite(rng)
     use_defs = rng.random() < 0.3
     defs = ["n", "t"] if use_defs else None
